@@ -872,6 +872,33 @@ fn case_strategy(kinds: &'static [IterKind]) -> BoxedStrategy<IterCase> {
         .boxed()
 }
 
+pub fn sanitize(k: &mut IterCase, kinds: &[IterKind]) -> bool {
+    k.cols %= 9;
+    k.rows %= 9;
+    if !kinds.contains(&k.kind) {
+        k.kind = kinds[(k.cols as usize + k.rows as usize) % kinds.len()];
+    }
+    let fix = |m: &mut [u8; 4]| m.iter_mut().for_each(|x| *x %= 5);
+    match &mut k.recv {
+        IRecv::M(rv) => {
+            fix(&mut rv.m);
+            fix(&mut rv.m2);
+        }
+        IRecv::View(m) => fix(m),
+        IRecv::NestedView(a, b) | IRecv::ViewOfViewMut(a, b) => {
+            fix(a);
+            fix(b);
+        }
+        IRecv::Slice(s) => *s %= 9,
+    }
+    // shared-only receivers cannot give mutable iterators
+    if k.kind.is_mut() && matches!(k.recv, IRecv::View(_) | IRecv::NestedView(..) | IRecv::ViewOfViewMut(..)) {
+        k.recv = IRecv::M(Recv::view([1, 1, 1, 1]));
+    }
+    k.script.truncate(16);
+    true
+}
+
 fn enum_cases(kinds: &[IterKind], tier: Tier, emit: &mut dyn FnMut(IterCase)) {
     let alphabet: Vec<Step> = vec![
         Step::Next, Step::NextBack, Step::Nth(N::Zero), Step::Nth(N::Lit(1)), Step::Nth(N::Lit(2)), Step::Nth(N::Lm1), Step::Nth(N::L), Step::Nth(N::Max), Step::Nth(N::Wrap(1, 0)),
@@ -953,6 +980,9 @@ macro_rules! iter_prop {
             }
             fn execute(k: &IterCase, ctx: &mut Ctx) -> Verdict {
                 execute(k, ctx)
+            }
+            fn fuzz_sanitize(k: &mut IterCase) -> bool {
+                sanitize(k, $kinds)
             }
             fn essential_classes() -> &'static [&'static str] {
                 $ess
